@@ -400,7 +400,7 @@ class Verifier:
             r = c.raises.get(exc)
             if r is None:
                 node = outcome[3]
-                eng.oblige(f"exc:{q}:L{getattr(node, 'lineno', 0)}:{exc}:undeclared-raise", 'exc', False, node)
+                eng.oblige(f"exc:{q}:{exc}:undeclared-raise@{eng.site(node)}", 'exc', False, node)
                 return
             ctx = Ctx(eng, old, old)
             if r.get('when'):
@@ -462,7 +462,7 @@ class Verifier:
         oh = old._s.heap
         for k, arr in st.heap.items():
             cov = f"heap:{k[0]}:{k[1].split('.')[0]}"
-            if cov in covered:
+            if cov in covered or k[0] in getattr(self.spec, 'value_classes', ()):
                 continue
             o = oh.get(k)
             if o is None:
